@@ -156,3 +156,37 @@ def run(ctx):
                            line=st.get('ln'))
     ctx.floor('C08.3', 'limit arguments on the compile path', uses, 4)
     ctx.floor('C08.3', 'completeness tests', cmpn, 1)
+
+    # ---------------------------------------------------------------- C08.4
+    ctx.rule('C08.4', 'one selection: in compile_context_bundle_for_run the summary inputs of every compile request (summaries / summary_artifact_id / summary_to_seq) and the checkpoint list of the logged decision are all built from the result of the same lookup (hierarchical_compaction_checkpoints_for_compile_v1), and none of them reads the result of another checkpoint lookup — otherwise the bundle can reference a summary the logged decision does not name.')
+    cb = P.fn('ripd::session::compile_context_bundle_for_run')
+    ctx.touch(cb)
+    lookups = [s_ for s_ in cb.sites() if re.search(r'ContinuityStore::\w*compaction_checkpoints?_for_compile_v1$', s_.callee)]
+    H = [s_ for s_ in lookups if re.search(r'hierarchical_compaction_checkpoints_for_compile_v1$', s_.callee)]
+    if len(H) != 1:
+        raise CheckError('C08.4: compile_context_bundle_for_run is expected to call hierarchical_compaction_checkpoints_for_compile_v1 once (found %d)' % len(H))
+    hd = H[0].dest['l']
+    others = [s_.dest['l'] for s_ in lookups if s_ is not H[0] and s_.bb != H[0].bb]
+    nsum = 0
+    for (bi, si, st) in cb.aggregates(r'Compile\w+Request$'):
+        rv = st['rv']
+        for fld, op in zip(rv['fields'], rv['a']):
+            if not re.search(r'summar', fld):
+                continue
+            nsum += 1
+            rl = reads_locals(cb, op)
+            ok = hd in rl and not (rl & set(others))
+            ctx.ob('C08.4', cb, 'bundle-from-selected:' + fld, ok,
+                   '%s.%s %s' % (rv['adt'].rsplit('::', 1)[-1], fld, 'is built from the selected checkpoint hierarchy only' if ok else
+                                 'is built from %s: the bundle references a summary the logged selection decision does not name' % ('ANOTHER checkpoint lookup' if rl & set(others) else 'something other than the selected hierarchy')), line=st.get('ln'))
+    ctx.floor('C08.4', 'summary inputs of compile requests', nsum, 3)
+    # the decision side: what is pushed into the checkpoint list of the decision
+    dec = cb.aggregates(r'ContextSelectionDecisionForRun$')
+    if not dec:
+        raise CheckError('C08.4: ContextSelectionDecisionForRun construction not found')
+    rv = dec[0][2]['rv']
+    lst = cb.root_local(rv['a'][rv['fields'].index('compaction_checkpoints')])
+    pushes = [s_ for s_ in cb.calls(r'alloc::vec::Vec::<T, A>::(push|extend)$|Extend<T>>::extend$') if cb.root_local(s_.args[0], through_calls=(r'::deref_mut$',)) == lst]
+    direct = reads_locals(cb, rv['a'][rv['fields'].index('compaction_checkpoints')])
+    okd = (bool(pushes) and all(hd in reads_locals(cb, s_.args[1]) and not (reads_locals(cb, s_.args[1]) & set(others)) for s_ in pushes)) or (hd in direct and not (direct & set(others)))
+    ctx.ob('C08.4', cb, 'decision-from-selected', okd, 'the checkpoint list of the logged decision %s' % ('is filled from the selected checkpoint hierarchy only' if okd else 'is NOT filled from the selected hierarchy (or reads another lookup)'), line=dec[0][2].get('ln'))
